@@ -686,6 +686,9 @@ def c16(tier):
         S('long-outage', '1100 consecutive failed attempts in ONE path (host never resolves; default min_wait=5/max_wait=30, random() symbolic per attempt): the exponent of '
           'the doubling window crosses every machine-number boundary (2^63, 2^64, 2^1024): persist() must go on yielding one bounded BackOff per attempt',
           K=1100, outcomes=['resolve-fail'], sym_waits=False, sym_exit=False, xval_stride=1),
+        S('through-a-proxy', 'the WebSocket reaches its server through an HTTP proxy; per attempt the proxy {refuses the TCP connection, answers 407, resets the '
+          'connection during the CONNECT exchange (raw socket error), closes without an answer}: every attempt is followed by exactly one BackOff and a new attempt, '
+          'no exception ends persist()', K=3, outcomes=['proxy-refused', 'proxy-407', 'proxy-reset', 'proxy-eof'], proxy=True),
         S('defaults', 'default min_wait=5/max_wait=30, 5 attempts', K=5, outcomes=['refused', 'rejected', 'ready-close'], sym_waits=False, sym_exit=False),
     ]
     return run_property('C16', tier, specs, 'model_checking', 'persist() back-off', ENV_ASSUMPTIONS + [
